@@ -179,6 +179,7 @@ def run(rep: core.Report):
                  "forward and inverse transforms do not use conjugate phases over the same shortest vectors: the round trip is not the identity", line=line)
     # ---- Python -----------------------------------------------------------
     sq = core.find_def(D2F, "DynmatToForceConstants._sum_q")
+    core.require_names(sq, ["phases", "phase_factors", "pos", "multi", "adrs", "s_j", "p_i"], f"{D2F}::_sum_q")
     tr = symalg.OpenPyTranslator(where="_sum_q")
     env = tr.summary(sq)
     ph = env.get("phases")
@@ -193,6 +194,7 @@ def run(rep: core.Report):
     rets = [r.value for r in ast.walk(sq) if isinstance(r, ast.Return)]
     rep.instance("R06c", D2F, "DynmatToForceConstants._sum_q", f"returns {core.src(rets[0]) if rets else '?'}", len(rets) == 1 and core.src(rets[0]).endswith(".real"), "the real part is not taken", line=sq.lineno)
     pinv = core.find_def(D2F, "DynmatToForceConstants._py_inverse_transformation")
+    core.require_names(pinv, ["coef", "N", "m", "p_i", "p_j", "s_j", "fc_elem"], f"{D2F}::_py_inverse_transformation")
     tr2 = symalg.OpenPyTranslator(where="_py_inverse_transformation")
     env2 = tr2.summary(pinv)
     cf = [st for st in ast.walk(pinv) if isinstance(st, ast.Assign) and core.src(st.targets[0]) == "coef"]
@@ -202,6 +204,7 @@ def run(rep: core.Report):
     fe = [st for st in ast.walk(pinv) if isinstance(st, ast.Assign) and core.src(st.targets[0]) == "fc_elem"]
     rep.instance("R06c", D2F, "DynmatToForceConstants._py_inverse_transformation", core.norm(core.src(fe[0]), 70) if fe else "<vanished>", len(fe) == 1 and symalg.same(symalg.open_expr(core.src(fe[0].value)), symalg.open_expr("self._sum_q(p_i, s_j, p_j) * coef"))[0], "the element is not sum_q times the coefficient", line=pinv.lineno)
     fwd = core.find_def(PYDM, "DynamicalMatrix._run_py_dynamical_matrix")
+    core.require_names(fwd, ["phase", "vec", "q", "fc_elem", "phase_factor", "sqrt_mm", "m", "k", "dm_local", "mass", "i", "j"], f"{PYDM}::_run_py_dynamical_matrix")
     apps = [c.args[0] for c in ast.walk(fwd) if isinstance(c, ast.Call) and core.src(c.func) == "phase.append" and c.args]
     ok_pp = len(apps) == 1 and symalg.same(symalg.open_expr(core.src(apps[0])), symalg.open_expr("np.vdot(vec, q) * 2j * np.pi"))[0]
     augs = [a for a in ast.walk(fwd) if isinstance(a, ast.AugAssign) and core.src(a.target) == "dm_local" and isinstance(a.op, ast.Add)]
@@ -213,6 +216,7 @@ def run(rep: core.Report):
                  "the Python forward reference does not use e^{+2 pi i q.s}/m/sqrt(mm)", line=fwd.lineno)
     # ---- R06d -------------------------------------------------------------
     ci = core.find_def(D2F, "get_commensurate_points_in_integers")
+    core.require_names(ci, ["D", "snf"], f"{D2F}::get_commensurate_points_in_integers")
     mg = [st for st in ast.walk(ci) if isinstance(st, ast.Assign) and isinstance(st.value, ast.Call) and core.src(st.value.func) == "np.meshgrid" and isinstance(st.targets[0], ast.Tuple)]
     if len(mg) != 1:
         raise AnalysisError("R06d: np.meshgrid construction vanished in get_commensurate_points_in_integers")
